@@ -350,6 +350,7 @@ type c07UnprivCase struct {
 	Dst      *h.Tree      `json:"dst"`
 	Script   h.SendScript `json:"script"`
 	Capacity int          `json:"capacity"`
+	Steer    bool         `json:"steer,omitempty"` // hold the content writer between chmod and open (verif hook)
 }
 
 func genC07Unpriv(t *rapid.T) *c07UnprivCase {
@@ -359,6 +360,24 @@ func genC07Unpriv(t *rapid.T) *c07UnprivCase {
 	c.Script.Choices = rapid.SliceOfN(rapid.IntRange(0, 5), 1, 6).Draw(t, "choices")
 	c.Script.RaceStats = rapid.Bool().Draw(t, "race")
 	c.Script.Tail = "echo"
+	c.Steer = rapid.Bool().Draw(t, "steer")
+	// steered shape: a read-only file with content, many entries the diff has to work
+	// through, then a hard link to that file - so that the file's content arrives
+	// while the diff still has the link ahead of it
+	if rapid.IntRange(0, 5).Draw(t, "lagginglink") == 0 {
+		perm := rapid.SampledFrom([]uint32{0o400, 0o444, 0o555, 0o4555}).Draw(t, "ll.perm")
+		size := rapid.SampledFrom([]int{1, 5, 40000}).Draw(t, "ll.size")
+		n := rapid.SampledFrom([]int{150, 200, 260}).Draw(t, "ll.fillers")
+		src := &h.Tree{Nodes: []h.Node{{Path: "a", Kind: h.KFile, Perm: perm, Uid: 1000, Gid: 1000, Mtime: 1_700_000_000_000_000_001, Seed: 3, Size: size}}}
+		for i := 0; i < n; i++ {
+			src.Nodes = append(src.Nodes, h.Node{Path: fmt.Sprintf("d%03d", i), Kind: h.KDir, Perm: 0o755, Uid: 1000, Gid: 1000, Mtime: 5})
+		}
+		src.Nodes = append(src.Nodes, h.Node{Path: "z", Kind: h.KFile, Perm: perm, Uid: 1000, Gid: 1000, Mtime: 1_700_000_000_000_000_001, Seed: 3, Size: size, LinkTo: "a"})
+		src.Normalize()
+		c.Src, c.Dst = src, nil
+		c.Script.RaceStats = false
+		c.Steer = true
+	}
 	return c
 }
 
@@ -388,7 +407,7 @@ func c07UnprivCheck(env *h.Env, c *c07UnprivCase) error {
 		stats = append(stats, hStat{Path: h.BStr(st.Path), Mode: st.Mode, Uid: st.Uid, Gid: st.Gid, Size: st.Size, Mtime: st.ModTime, Link: h.BStr(st.Linkname), Xattrs: st.Xattrs, Seed: c.Src.Nodes[i].Seed})
 	}
 	var res c03JailResult
-	if err := runJailed(jail, "receive", 1000, c03JailArg{Dest: "/dst", Stats: stats, Mode: "normal", Script: c.Script, Capacity: c.Capacity}, &res); err != nil {
+	if err := runJailed(jail, "receive", 1000, c03JailArg{Dest: "/dst", Stats: stats, Mode: "normal", Script: c.Script, Capacity: c.Capacity, SteerChmod: c.Steer}, &res); err != nil {
 		var crash *helperCrash
 		if errors.As(err, &crash) {
 			return fmt.Errorf("the unprivileged receiving %v", crash)
@@ -402,6 +421,13 @@ func c07UnprivCheck(env *h.Env, c *c07UnprivCase) error {
 		}
 	}
 	env.Class("unprivileged-receiver")
+	if res.HookCalls > 0 {
+		env.Class("writer-held-between-chmod-and-open")
+	}
+	if res.HookRevoked > 0 {
+		env.Class("write-permission-revoked-meanwhile")
+	}
+	env.Note("hook", fmt.Sprint(res.HookCalls, "/", res.HookRevoked))
 	if ro {
 		env.Class("read-only-file-with-content")
 		env.NonTrivial()
